@@ -23,7 +23,7 @@ ActsTemp == {a \in Only({"insert1", "update", "delete", "replace", "select", "ca
 \* creating tables, failing and not, and what is left in the directory
 \* (a small family: a random walk has to take two or three particular steps in a row - create, a failing statement
 \* on the new table, a look at it - which it does not often enough among a hundred actions)
-ActsCreate == {a \in Only({"insert1", "insertbad", "insertbad2", "replace", "updatefail", "addfail", "setenc", "select", "disk",
+ActsCreate == {a \in Only({"insert1", "insertbad", "insertbad2", "insertdup", "replace", "updatefail", "addfail", "setenc", "select", "disk",
                             "renamevu", "dropcol", "delete", "inserth"}) : a.t = NewFile /\ a.k \in {0, 1}}
               \cup {a \in Only({"insertsel"}) : a.t = NewFile /\ a.u = "f1"}
               \cup {a \in Only({"createas"}) : a.u = "f1"}
